@@ -18,6 +18,7 @@ from fractions import Fraction
 import numpy as np
 
 from .. import c02_t2 as T
+from .. import c02_elems as EL
 from .. import c02_oracle as X
 from ..core import TranslateError, clist, cz, cnat
 
@@ -83,7 +84,9 @@ def default_elem(m):
 # ------------------------------------------------------------------------------ the check
 
 def run(ctx):
-    ctx.trusted += ['change of variables int_{F(K^)} p = |det A| int_{K^} p o F and additivity of the integral over the cells are '
+    ctx.trusted += ['thorough tier: coqchk re-checks all modules except the generated Gen.C02Elems (per-element vm_compute lemmas), '
+                    'which is checked by the coqc kernel only',
+                    'change of variables int_{F(K^)} p = |det A| int_{K^} p o F and additivity of the integral over the cells are '
                     'the definition of the exact integral over a physical cell (not formalised)',
                     'exactness of the reference rules is property C08 (2^-45); NumPy broadcasting / einsum in Functional and the '
                     'basis classes is covered by the oracle only',
@@ -103,12 +106,22 @@ def run(ctx):
     except TranslateError as e:
         ctx.broke('translator', 'c02_t2.translate_all', e)
         gen_ok = False
+    relems = []
+    try:
+        etxt, relems = EL.generate(ctx.tier)
+        ctx.write_gen('C02Elems', etxt)
+        ctx.extra['reference_elements'] = [e.name for e in relems]
+        ctx.extra['reference_stiffness_elements'] = [e.name for e in relems if e.stiff is not None]
+    except TranslateError as e:
+        ctx.broke('translator', 'c02_elems.generate (symbolic execution of lbasis)', e)
+        gen_ok = False
     tr = Track(ctx)
     meshes = _meshes(ctx)
 
     def oracles():
         import traceback
-        for fn, args in ((_oracle_subset_sequences, (ctx, meshes, tr)), (_oracle_order_sweep, (ctx, tr)),
+        for fn, args in ((_oracle_reference_matrices, (ctx, relems, tr)),
+                         (_oracle_subset_sequences, (ctx, meshes, tr)), (_oracle_order_sweep, (ctx, tr)),
                          (_oracle_cells, (ctx, meshes, tr)), (_oracle_facets, (ctx, meshes, tr)), (_oracle_invariance, (ctx, meshes, tr)),
                          (_oracle_lagrange, (ctx, tr)), (_oracle_partition_of_unity, (ctx, meshes, tr))):
             try:
@@ -118,10 +131,14 @@ def run(ctx):
                          {'traceback': traceback.format_exc()[-3000:], 'seed': ctx.seed})
     # the oracle (pure Python) runs in a second thread while coqc compiles
     from concurrent.futures import ThreadPoolExecutor
+    # thorough tier: coqchk (no VM) re-checks everything except the generated module of reference matrices, whose lemmas
+    # are pure VM computations (checked by the coqc kernel)
+    from .c08 import _patch_coqchk
+    _patch_coqchk(ctx, ['Gen.C02Elems'])
     with ThreadPoolExecutor(1) as ex:
         fut = ex.submit(oracles)
         if gen_ok:
-            gen_ok = ctx.compile_dyn(['gen/C02Gen.v'] + ctx.copy_dyn(), timeout=600)
+            gen_ok = ctx.compile_dyn(['gen/C02Gen.v', 'gen/C02Elems.v'] + ctx.copy_dyn(), timeout=600)
         ctx.prove()
         if gen_ok:
             _correspond(ctx, meshes)
@@ -523,6 +540,67 @@ def _oracle_invariance(ctx, meshes, tr):
 
 def padd_const(poly, d):
     return X.padd(poly, {tuple([0] * d): Fraction(1)})
+
+
+# ---- assembled matrices vs |det| * exact reference literal (the literals are proved exact in Coq)
+
+def _oracle_reference_matrices(ctx, relems, tr):
+    """BilinearForm mass on integer-affine meshes == scatter of |det A_e| * M_ref (rational literal), for every generated
+    element; stiffness of P1/P2/Q1/Q2 on integer-scaled, signed-permuted copies of the reference cell == |det| h^-2 K_ref"""
+    import skfem
+    from skfem.assembly import Basis, BilinearForm
+    from skfem.helpers import dot, grad
+    rng = ctx.rng
+    kind_of = {'RefLine': 'line', 'RefTri': 'tri', 'RefTet': 'tet', 'RefQuad': 'quad', 'RefHex': 'hex', 'RefWedge': 'wedge'}
+    meshcls = {'line': skfem.MeshLine, 'tri': skfem.MeshTri, 'tet': skfem.MeshTet, 'quad': skfem.MeshQuad, 'hex': skfem.MeshHex,
+               'wedge': skfem.MeshWedge1}
+    cache = {}
+    for e in relems:
+        kind = kind_of[e.elem.refdom.__name__]
+        d = e.dim
+        if kind not in cache:
+            for _try in range(100):
+                m = X.make_mesh(kind, rng, general=(kind in ('tri', 'tet')), size=2)
+                if X.is_valid(m) and float(np.abs(m.p).max()) <= 30:
+                    break
+            cache[kind] = m
+        m = cache[kind]
+        one = {tuple([0] * d): Fraction(1)}
+        vol = X.cell_integrals(m, one)
+        refvol = EL.mono_int(e.shape, [0] * d)
+        basis = Basis(m, e.elem)
+        A = BilinearForm(lambda u, v, w: u * v).assemble(basis).toarray()
+        want = [[Fraction(0)] * basis.N for _ in range(basis.N)]
+        ed = np.asarray(basis.element_dofs)
+        for c in range(m.t.shape[1]):
+            absdet = vol[c] / refvol
+            for i in range(ed.shape[0]):
+                for j in range(ed.shape[0]):
+                    want[int(ed[i, c])][int(ed[j, c])] += absdet * e.mass[i][j]
+        worst = max(abs(float(A[i, j]) - float(want[i][j])) for i in range(basis.N) for j in range(basis.N))
+        ctx.count(('refmass', e.name, np.asarray(m.p).tobytes()), nontrivial=True)
+        tr.cmp(f'refmass:{e.name}', f'mass matrix of {e.name} on an integer-affine {kind} mesh vs |det A| * exact reference literal (max abs entry error)',
+               worst, 0.0, float(sum(vol)), {**mesh_data(m), 'element': e.name})
+        if e.stiff is None:
+            continue
+        m0 = meshcls[kind].init_refdom()
+        h = rng.randint(1, 4)
+        Q = _signed_perm(rng, d)
+        c0 = np.array([rng.randint(-3, 3) for _ in range(d)], dtype=float)
+        kw = {'sort_t': False} if kind == 'tri' else {}
+        m1 = meshcls[kind](h * (Q @ np.asarray(m0.p)) + c0[:, None], np.asarray(m0.t), **kw)
+        b1 = Basis(m1, e.elem)
+        S = BilinearForm(lambda u, v, w: dot(grad(u), grad(v))).assemble(b1).toarray()
+        ed = np.asarray(b1.element_dofs)
+        fac = Fraction(h) ** d / Fraction(h) ** 2
+        worst = 0.0
+        for i in range(ed.shape[0]):
+            for j in range(ed.shape[0]):
+                worst = max(worst, abs(float(S[int(ed[i, 0]), int(ed[j, 0])]) - float(fac * e.stiff[i][j])))
+        ctx.count(('refstiff', e.name, h, Q.tobytes()), nontrivial=True)
+        tr.cmp(f'refstiff:{e.name}', f'stiffness matrix of {e.name} on h*Q*(reference cell)+c vs h^(d-2) * exact reference literal (max abs entry error)',
+               worst, 0.0, float(fac) * max(1.0, max(abs(float(x)) for r in e.stiff for x in r)),
+               {'element': e.name, 'h': h, 'Q': Q.tolist(), 'c': c0.tolist()})
 
 
 # ---- exact Lagrange matrices
